@@ -473,7 +473,10 @@ class Simulation:
         # Store gradient and misfit.
         if what in ['computed', 'results', 'all']:
             out['gradient'] = self._gradient
+            # Store the misfit as a plain number (it is an xarray-instance).
             out['misfit'] = self._misfit
+            if self._misfit is not None:
+                out['misfit'] = float(np.asarray(self._misfit).real)
             out['computed'] = self._computed
 
         if copy:
@@ -1189,7 +1192,9 @@ class Simulation:
             weights = self.data['weights']
             self._misfit = np.sum(weights*(residual.conj()*residual)).real/2
 
-        return self._misfit.data
+        # `_misfit` is an xarray-instance if computed here, but a number if
+        # the simulation was re-created through `from_dict` or `from_file`.
+        return np.asarray(self._misfit)
 
     def _bcompute(self):
         """Compute bfields asynchronously for all sources and frequencies."""
